@@ -449,6 +449,487 @@ class SplitLoop(Contract):
 
 
 # ----------------------------------------------------------------------------
+# header entry -> source set  (VariantPeptideInfo.from_variant_peptide)
+# ----------------------------------------------------------------------------
+VPL = 'moPepGen/aa/VariantPeptideLabel.py'
+VarS, GeneS, SrcS = z3.DeclareSort('VarId18'), z3.DeclareSort('GeneId18'), z3.DeclareSort('Source18')
+TYPE = z3.Function('variant_type_prefix', VarS, I_)
+SRC = z3.Function('gvf_source_of', GeneS, VarS, SrcS)
+INTERNAL = z3.Function('internal_source', I_, SrcS)
+TYCODES = {'SECT': 0, 'W2F': 1}
+INTERNAL_CODES = {'NovelORF': 0, 'SECT': 1, 'CodonReassign': 2}
+
+
+def src_of(g, v):
+    """the source a variant named in a header entry contributes (property statement): selenocysteine termination and codon
+    reassignment are internal sources recognised by the variant type prefix; any other variant has the source of the GVF
+    that defines it for that gene"""
+    return z3.If(TYPE(v) == TYCODES['SECT'], INTERNAL(INTERNAL_CODES['SECT']),
+                 z3.If(TYPE(v) == TYCODES['W2F'], INTERNAL(INTERNAL_CODES['CodonReassign']), SRC(g, v)))
+
+
+class GeneKey:
+    def __init__(self, term):
+        self.term = term
+
+    def sym_eq(self, I, other):
+        return self.term == other.term if isinstance(other, GeneKey) else False
+
+    def __repr__(self):
+        return f'Gene({self.term})'
+
+
+class TxTok:
+    def __init__(self, e, name):
+        self.name, self.gene = name, GeneKey(e.const(f'gene_of_{name}', GeneS))
+
+    def __repr__(self):
+        return f'Tx({self.name})'
+
+
+class TypeTag:
+    def __init__(self, tok):
+        self.tok = tok
+
+    def sym_eq(self, I, other):
+        if isinstance(other, str):
+            return TYPE(self.tok.term) == TYCODES.setdefault(other, len(TYCODES))
+        raise Unsupported('variant type prefix compared with a non-constant')
+
+
+class FusionPart:
+    """'<transcript>:<position>' inside a fusion id"""
+    def __init__(self, tx):
+        self.tx = tx
+
+    def sym_method(self, I, name, a, k):
+        if name == 'split' and list(a) == [':']:
+            return [self.tx, OpaqueStr(['breakpoint'])]
+        raise Unsupported(f'fusion part .{name}')
+
+
+class TokParts:
+    def __init__(self, tok, maxsplit):
+        self.tok, self.maxsplit = tok, maxsplit
+
+    def sym_getitem(self, I, idx):
+        if idx == 0:
+            return TypeTag(self.tok)
+        if idx == 1 and self.maxsplit == 2 and self.tok.circ_tx is not None:
+            return self.tok.circ_tx
+        raise Unsupported(f'field {idx!r} of a variant id')
+
+    def sym_unpack(self, I, n):
+        if n == 3 and self.tok.fusion_txs is not None and self.maxsplit is None:
+            return (TypeTag(self.tok), FusionPart(self.tok.fusion_txs[0]), FusionPart(self.tok.fusion_txs[1]))
+        raise Unsupported('unpacking the fields of a variant id')
+
+
+class VarTok:
+    """a variant id named in a header entry"""
+    def __init__(self, term, circ_tx=None, fusion_txs=None):
+        self.term, self.circ_tx, self.fusion_txs = term, circ_tx, fusion_txs
+
+    def sym_method(self, I, name, a, k):
+        if name == 'split' and a and a[0] == '-':
+            return TokParts(self, a[1] if len(a) > 1 else None)
+        raise Unsupported(f'variant id .{name}')
+
+    def __repr__(self):
+        return f'Var({self.term})'
+
+
+class VarList(View):
+    """a list of variant ids seen only through membership: get(i) is some member; a for loop over it visits every member
+    (the seen-set ghost of the loop contract); + is union of members, list(set(.)) keeps the members"""
+    def __init__(self, e, name, parts=None, single=None):
+        self.e, self.name, self.parts, self.single = e, name, parts, single
+        if parts is None and single is None:
+            self.mem = z3.Function(e.fresh_name(f'member_of_{name}'), VarS, B_)
+        self._len = 1 if single is not None else e.int(f'len_{name}')
+        if single is None:
+            e.assume(self._len >= 0)
+
+    def member(self, v):
+        if self.single is not None:
+            return v == self.single.term
+        if self.parts is not None:
+            return z3.Or(*[p.member(v) for p in self.parts]) if self.parts else z3.BoolVal(False)
+        return self.mem(v)
+
+    def length(self):
+        return self._len
+
+    def get(self, i):
+        if self.single is not None:
+            return self.single
+        t = self.e.const(f'elt_of_{self.name}', VarS)
+        self.e.assume(self.member(t))
+        return VarTok(t)
+
+    @staticmethod
+    def lift(e, v):
+        if isinstance(v, VarList):
+            return [v]
+        if isinstance(v, list) and all(isinstance(x, VarTok) for x in v):
+            return [VarList(e, 'single', single=x) for x in v]
+        raise Unsupported(f'variant list + {v!r}')
+
+    def sym_binop(self, I, op, other, reflected):
+        if op != '+':
+            return NotImplemented
+        a, b = VarList.lift(I.e, self), VarList.lift(I.e, other)
+        parts = (b + a) if reflected else (a + b)
+        out = VarList(I.e, 'concat', parts=parts)
+        I.e.assume(out._len == sum([p._len for p in parts], z3.IntVal(0)))
+        return out
+
+    def __repr__(self):
+        return f'<variants {self.name}>'
+
+
+def _pred(e, name, sort):
+    return z3.Function(e.fresh_name(name), sort, B_)
+
+
+def _pred_with(e, old, elem, sort, name):
+    new = _pred(e, name, sort)
+    x = z3.Const(f'x_{name}', sort)
+    e.assume(z3.ForAll([x], new(x) == z3.Or(old(x), x == elem)))
+    return new
+
+
+def _pred_empty(e, sort, name):
+    p = _pred(e, name, sort)
+    x = z3.Const(f'x_{name}', sort)
+    e.assume(z3.ForAll([x], z3.Not(p(x))))
+    return p
+
+
+class SrcVal:
+    def __init__(self, term):
+        self.term = term
+
+
+class GhostSources:
+    """the VariantSourceSet of one header entry: the set of sources added so far, every add checked against the entry"""
+    def __init__(self, owner, I):
+        self.owner, self.entry = owner, owner._cur.current
+        self.added = _pred_empty(I.e, SrcS, 'in_sources')
+        self.frozen_at = None
+        if self.entry is not None:
+            self.entry.ghosts.append(self)
+
+    def sym_method(self, I, name, a, k):
+        st, e = self.owner._cur, I.e
+        if name != 'add':
+            raise Unsupported(f'sources.{name}')
+        kind = self.entry.kind
+        e.prove(f'C18/entry/{kind}/source-added-through-the-group-map', k.get('group_map') is st.group_map and len(a) == 1)
+        el = a[0]
+        if isinstance(el, str):
+            if el not in INTERNAL_CODES:
+                e.prove(f'C18/entry/{kind}/only-known-internal-sources', False)
+                return None
+            term = INTERNAL(INTERNAL_CODES[el])
+        elif isinstance(el, SrcVal):
+            term = el.term
+        else:
+            raise Unsupported(f'sources.add({el!r})')
+        v = z3.Const('v_some', VarS)
+        just = [z3.Exists([v], z3.And(c.member(v), term == src_of(g.term, v))) for g, c in self.entry.comps]
+        if self.entry.orf:
+            just.append(term == INTERNAL(INTERNAL_CODES['NovelORF']))
+        e.prove(f'C18/entry/{kind}/every-source-comes-from-a-variant-the-entry-names', z3.Or(*just) if just else False)
+        self.added = _pred_with(e, self.added, term, SrcS, 'in_sources')
+        return None
+
+
+class FrozenKey:
+    def __init__(self, ghost):
+        self.ghost, self.pred = ghost, ghost.added
+
+
+class WildSources:
+    def __init__(self, key):
+        self.key = key
+
+
+class WildcardMap18:
+    def sym_getitem(self, I, key):
+        if not isinstance(key, FrozenKey):
+            raise Unsupported(f'wildcard_map[{key!r}]')
+        if I.e.branch(I.e.bool('source_set_matches_a_wildcard_entry'), 'wildcard'):
+            return WildSources(key)
+        I.raise_('KeyError')
+
+
+@register
+class FromVariantPeptide(Contract):
+    """every header entry gets the sources of exactly the variants it names, each looked up under the gene it belongs to (for a
+    fusion: donor-side, fusion and peptide-level variants under the donor gene, acceptor-side variants under the acceptor gene, also
+    when both are the same gene), plus NovelORF for an entry with an ORF id; the wildcard map is consulted with that complete set"""
+    path, qualname, props = VPL, 'VariantPeptideInfo.from_variant_peptide', ('C18',)
+    assumptions = ('assumed: parse_variant_peptide_id returns one identifier per header entry (parser/printer round trip: bounded native check); '
+                   'the first/second transcript of a fusion id and the transcript of a circRNA id are fields of the id (the real first_tx_id / '
+                   'second_tx_id properties run on that structure)',
+                   'assumed: LabelSourceMapping.get_source(gene, variant) is a function of its arguments (the GVF the variant was read from)',
+                   'iteration axiom: a for loop over a list runs its body once for every member (seen-set ghost; on exit every member was seen)',
+                   'VariantSourceSet is replaced by a ghost set: validation against the level map and the group_map substitution inside '
+                   'VariantSourceSet.add are not part of this contract (the group_map argument is checked to be passed on every add)')
+
+    def setup(self, I):
+        e = I.e
+        st = types.SimpleNamespace(entries=[], current=None)
+        st.group_map = SymObj('GroupMap18')
+        st.label_map = SymObj('LabelSourceMapping')
+        st.wild = WildcardMap18()
+        kind = ['novel_orf', 'circ_rna', 'fusion', 'base'][e.choose(4, 'entry kind')]
+        st.entries.append(self.mk_entry(I, st, kind, 0))
+        st.entries.append(self.mk_entry(I, st, 'base', 1))
+        st.pep = SymObj('AminoAcidSeqRecord', description=OpaqueStr(['header']))
+        st.tx2gene = types.SimpleNamespace(sym_getitem=lambda I2, key: key.gene)
+        st.args = []
+        st.kwargs = dict(peptide=st.pep, tx2gene=st.tx2gene, coding_tx=SymObj('CodingTx'), label_map=st.label_map, group_map=st.group_map,
+                         wildcard_map=st.wild)
+        self._cur = st
+        return st
+
+    def mk_entry(self, I, st, kind, n):
+        e = I.e
+        en = types.SimpleNamespace(kind=kind, n=n, ghosts=[], label=OpaqueStr(['entry', n]))
+        en.orf = I.e.branch(e.bool(f'entry{n}_has_orf_id'), 'orf id')
+        orf = OpaqueStr(['ORF', n]) if en.orf else None
+        idx = e.int(f'entry{n}_index')
+        if kind == 'novel_orf':
+            tx, g = TxTok(e, f'tx{n}'), GeneKey(e.const(f'header_gene{n}', GeneS))
+            cr = VarList(e, f'codon_reassigns{n}')
+            en.comps = [(g, cr)]
+            en.obj = SymObj('NovelORFPeptideIdentifier', transcript_id=tx, gene_id=g, codon_reassigns=cr, is_protein_coding=False, orf_id=orf, index=idx)
+        elif kind == 'circ_rna':
+            tx = TxTok(e, f'circ_tx{n}')
+            cid = VarTok(e.const(f'circ_id{n}', VarS), circ_tx=tx)
+            vs = VarList(e, f'variant_ids{n}')
+            en.comps = [(tx.gene, VarList(e, 'circ id', single=cid)), (tx.gene, vs)]
+            en.obj = SymObj('CircRNAVariantPeptideIdentifier', circ_rna_id=cid, variant_ids=vs, orf_id=orf, index=idx)
+        elif kind == 'fusion':
+            t1, t2 = TxTok(e, f'donor_tx{n}'), TxTok(e, f'acceptor_tx{n}')
+            fid = VarTok(e.const(f'fusion_id{n}', VarS), fusion_txs=(t1, t2))
+            a, b, c = VarList(e, f'first_variants{n}'), VarList(e, f'second_variants{n}'), VarList(e, f'peptide_variants{n}')
+            en.comps = [(t1.gene, a), (t1.gene, VarList(e, 'fusion id', single=fid)), (t1.gene, c), (t2.gene, b)]
+            en.obj = SymObj('FusionVariantPeptideIdentifier', fusion_id=fid, first_variants=a, second_variants=b, peptide_variants=c, orf_id=orf, index=idx)
+        else:
+            tx = TxTok(e, f'tx{n}')
+            vs = VarList(e, f'variant_ids{n}')
+            en.comps = [(tx.gene, vs)]
+            en.obj = SymObj('BaseVariantPeptideIdentifier', transcript_id=tx, variant_ids=vs, orf_id=orf, index=idx, gene_id=None)
+        en.obj.fields['_entry'] = en
+        return en
+
+    @property
+    def models(self):
+        c = self
+
+        def inst(reg):
+            def parse(I, a, k):
+                st = c._cur
+                I.e.prove('C18/entry/header-of-this-peptide-parsed', a[0] is st.pep.fields['description'])
+                return [en.obj for en in st.entries]
+            reg.func_('moPepGen/aa/VariantPeptideIdentifier.py', 'parse_variant_peptide_id', parse)
+
+            def to_str(v):
+                if isinstance(v, SymObj) and '_entry' in v.fields:
+                    def h(I, v):
+                        # the entry whose label is printed is the one being processed from here on
+                        c._cur.current = v.fields['_entry']
+                        return v.fields['_entry'].label
+                    return h
+                return None
+            reg.str_hooks.append(to_str)
+
+            def ctor(I, a, k):
+                if a and isinstance(a[0], WildSources):
+                    return a[0]
+                if a:
+                    raise Unsupported(f'VariantSourceSet({a[0]!r})')
+                return GhostSources(c, I)
+            reg.ctor_('VariantSourceSet', ctor)
+            reg.set_hooks.append(lambda v: (lambda I, v: v) if isinstance(v, VarList) else None)
+            def freeze(I, g):
+                g.frozen_at = g.added
+                return FrozenKey(g)
+            reg.set_hooks.append(lambda v: freeze if isinstance(v, GhostSources) else None)
+
+            def get_source(I, o, a, k):
+                I.e.prove('C18/entry/source-looked-up-in-the-given-label-map', o is c._cur.label_map)
+                if not (isinstance(a[0], GeneKey) and isinstance(a[1], VarTok)):
+                    raise Unsupported(f'get_source{tuple(a)!r}')
+                return SrcVal(SRC(a[0].term, a[1].term))
+            reg.method_('LabelSourceMapping', 'get_source', get_source)
+        return (inst,)
+
+    # ---- for var_id in _ids
+    def _ghost(self, env):
+        return env['info'].fields['sources']
+
+    def on_init(self, I, env):
+        st = self._cur
+        st.at_entry = self._ghost(env).added
+        st.seen = _pred_empty(I.e, VarS, 'seen')
+
+    def havoc(self, I, env, k):
+        st = self._cur
+        self._ghost(env).added = _pred(I.e, 'in_sources', SrcS)
+        st.seen = _pred(I.e, 'seen', VarS)
+
+    def inv(self, I, env, k):
+        st, gh, g = self._cur, self._ghost(env), env['gene_id']
+        v, s = z3.Const('v_inv', VarS), z3.Const('s_inv', SrcS)
+        return [('every-variant-seen-so-far-contributed-its-source', z3.ForAll([v], z3.Implies(st.seen(v), gh.added(src_of(g.term, v))))),
+                ('sources-are-only-added', z3.ForAll([s], z3.Implies(st.at_entry(s), gh.added(s))))]
+
+    def on_head(self, I, env, k):
+        st, ids = self._cur, env['_ids']
+        v = z3.Const('v_head', VarS)
+        I.e.assume(z3.Implies(k == ids.length(), z3.ForAll([v], z3.Implies(ids.member(v), st.seen(v)))))
+
+    def step(self, I, env, k):
+        st = self._cur
+        st.seen = _pred_with(I.e, st.seen, env['var_id'].term, VarS, 'seen')
+        return []
+
+    @property
+    def loops(self):
+        return {2: LoopSpec(inv=self.inv, havoc=self.havoc, on_init=self.on_init, on_head=self.on_head, step=self.step)}
+
+    def post_return(self, I, st, ret):
+        e = I.e
+        ok = isinstance(ret, list) and len(ret) == len(st.entries)
+        e.prove('C18/entry/one-record-per-header-entry', ok)
+        if not ok:
+            return
+        for en, info in zip(st.entries, ret):
+            kind = en.kind
+            src = info.fields['sources']
+            gh = src.key.ghost if isinstance(src, WildSources) else src
+            good = isinstance(gh, GhostSources) and gh.entry is en and info.fields['original_label'] is en.label
+            e.prove(f'C18/entry/{kind}/record-carries-the-label-and-sources-of-its-own-entry', good)
+            if not good:
+                continue
+            v = z3.Const('v_post', VarS)
+            for n, (g, comp) in enumerate(en.comps):
+                e.prove(f'C18/entry/{kind}/every-variant-the-entry-names-contributes-its-source/{comp.name.rstrip("0123456789")}',
+                        z3.ForAll([v], z3.Implies(comp.member(v), gh.added(src_of(g.term, v)))))
+            if en.orf:
+                e.prove(f'C18/entry/{kind}/orf-entry-has-the-NovelORF-source', gh.added(INTERNAL(INTERNAL_CODES['NovelORF'])))
+            e.prove(f'C18/entry/{kind}/wildcard-map-consulted-with-the-complete-source-set', gh.frozen_at is gh.added)
+            if isinstance(src, WildSources):
+                e.prove(f'C18/entry/{kind}/wildcard-replacement-is-that-of-the-entrys-own-set', src.key.pred is gh.added)
+
+
+GROUP = z3.Function('group_of_source', SrcS, SrcS)
+
+
+@register
+class SourceSetAdd(Contract):
+    """VariantSourceSet.add stores the group of the source when the source is grouped, the source itself otherwise, and only a
+    source that has a level; this is the add the header-entry contract (FromVariantPeptide) counts on"""
+    path, qualname, props = VPL, 'VariantSourceSet.add', ('C18',)
+    declared_raises = ['ValueError']
+
+    def setup(self, I):
+        e = I.e
+        st = types.SimpleNamespace(stored=[])
+        st.elem = e.const('source', SrcS)
+        st.known = z3.Function('source_has_a_level', SrcS, B_)
+        st.grouped = z3.Function('source_is_grouped', SrcS, B_)
+        term = lambda x: x.term if isinstance(x, SrcVal) else None
+        levels = types.SimpleNamespace(sym_contains=lambda I2, item: st.known(term(item)))
+        gm = types.SimpleNamespace(sym_contains=lambda I2, item: st.grouped(term(item)),
+                                   sym_getitem=lambda I2, item: SrcVal(GROUP(term(item))))
+        st.with_map = e.branch(e.bool('group_map_given'), 'group map')
+        st.self = SymObj('VariantSourceSet', levels_map=levels)
+        st.args = [st.self, SrcVal(st.elem)]
+        st.kwargs = dict(group_map=gm) if st.with_map else {}
+        self._cur = st
+        return st
+
+    @property
+    def models(self):
+        c = self
+
+        def inst(reg):
+            def set_add(I, o, a, k):
+                c._cur.stored.append(a[0])
+            reg.method_('set', 'add', set_add)
+        return (inst,)
+
+    def want(self, st):
+        return z3.If(st.grouped(st.elem), GROUP(st.elem), st.elem) if st.with_map else st.elem
+
+    def post_return(self, I, st, ret):
+        e = I.e
+        ok = len(st.stored) == 1 and isinstance(st.stored[0], SrcVal)
+        e.prove('C18/sources.add/exactly-one-element-stored', ok)
+        if ok:
+            e.prove('C18/sources.add/stores-the-group-of-a-grouped-source-else-the-source', st.stored[0].term == self.want(st))
+            e.prove('C18/sources.add/stored-source-has-a-level', st.known(st.stored[0].term))
+
+    def post_raise(self, I, st, exc):
+        I.e.prove('C18/sources.add/rejected-only-without-a-level-and-nothing-stored', z3.And(z3.Not(st.known(self.want(st))), len(st.stored) == 0))
+
+
+@register
+class SourceSetGreater(Contract):
+    """the order that ranks header entries: a source set is greater than another iff they differ and it has more level numbers, or
+    equally many and the sorted level numbers are lexicographically greater (so the smallest set - fewest, highest-priority sources -
+    sorts first and is the one split() takes)"""
+    path, qualname, props = VPL, 'VariantSourceSet.__gt__', ('C18',)
+    assumptions = ('assumed: to_int() returns the sorted level numbers of the set (levels_map lookup and list.sort not under contract)',)
+
+    def setup(self, I):
+        e = I.e
+        st = types.SimpleNamespace()
+        st.n, st.m = e.int('n_levels_self'), e.int('n_levels_other')
+        e.assume(z3.And(st.n >= 0, st.m >= 0))
+        st.A, st.B = e.array('levels_self'), e.array('levels_other')
+        st.same = e.bool('sets_are_equal')
+        st.self, st.other = SymObj('VariantSourceSet', which=0), SymObj('VariantSourceSet', which=1)
+        st.args = [st.self, st.other]
+        self._cur = st
+        return st
+
+    @property
+    def models(self):
+        c = self
+
+        def inst(reg):
+            def to_int(I, o, a, k):
+                st = c._cur
+                arr, n = (st.A, st.n) if o is st.self else (st.B, st.m)
+                return FnView(n, lambda i: arr[i if is_z3(i) else z3.IntVal(i)], tag='levels')
+            reg.method_('VariantSourceSet', 'to_int', to_int)
+            reg.protocol_('VariantSourceSet', '__eq__', lambda I, a, b: c._cur.same)
+        return (inst,)
+
+    def inv(self, I, env, k):
+        st = self._cur
+        t = z3.Int('t_eq')
+        return [('equal-so-far', z3.ForAll([t], z3.Implies(z3.And(0 <= t, t < k), st.A[t] == st.B[t])))]
+
+    @property
+    def loops(self):
+        return {0: LoopSpec(inv=self.inv)}
+
+    def post_return(self, I, st, ret):
+        p, t = z3.Int('p_first_diff'), z3.Int('t_before')
+        lex = z3.Exists([p], z3.And(0 <= p, p < st.n, st.A[p] > st.B[p],
+                                    z3.ForAll([t], z3.Implies(z3.And(0 <= t, t < p), st.A[t] == st.B[t]))))
+        want = z3.And(z3.Not(st.same), z3.Or(st.n > st.m, z3.And(st.n == st.m, lex)))
+        I.e.prove('C18/order/greater-iff-more-levels-or-equally-many-and-lexicographically-greater', as_bool(I.truth(ret)) == want)
+
+
+# ----------------------------------------------------------------------------
 # Native side: the whole commands on the demo files
 # ----------------------------------------------------------------------------
 from pyvc.native import NativeCheck
@@ -558,6 +1039,25 @@ class NativeBookkeeping(NativeCheck):
             for h, s_ in merged:
                 if sorted(h.split(' ')) != sorted(e for h0 in inputs[s_] for e in h0.split(' ')):
                     return dict(call=f'mergeFasta header of {s_}', observed=h, expected=' '.join(inputs[s_]), signature='merge-header')
+            # merge of databases whose entries differ only by the trailing counter / share text: every entry is still kept
+            syn = [[('ENST0001.1|SNV-100-A-T|12', 'MKPEPTIDER'), ('ENST0004.1|ENSG0004.1|ORF1|21', 'AAAPEPK')],
+                   [('ENST0001.1|SNV-100-A-T|1', 'MKPEPTIDER'), ('ENST0004.1|ENSG0004.1|ORF1|2', 'AAAPEPK'), ('ENST0001.1|SNV-100-A-T|1', 'QQQR')],
+                   [('ENST0001.1|SNV-100-A-T', 'MKPEPTIDER'), ('ENST0001.1|SNV-100-A-T|1', 'QQQR')]]
+            spaths = []
+            for i, recs in enumerate(syn):
+                spaths.append(d / f'syn_{i}.fasta')
+                with open(spaths[-1], 'w') as fh:
+                    for h, s_ in recs:
+                        fh.write(f'>{h}\n{s_}\n')
+            cli.merge_fasta(argparse.Namespace(command='mergeFasta', input_path=spaths, output_path=d / 'syn_merged.fasta', dedup_header=False, quiet=True))
+            want = {}
+            for recs in syn:
+                for h, s_ in recs:
+                    want.setdefault(s_, []).append(h)
+            got = dict((s_, h) for h, s_ in _read_fasta(d / 'syn_merged.fasta'))
+            for s_, hs in want.items():
+                if sorted(got.get(s_, '').split(' ')) != sorted(hs):
+                    return dict(call=f'mergeFasta of {syn}: header of {s_}', observed=got.get(s_), expected=' '.join(hs), signature='merge-header-entry-dropped')
             # encode + dictionary restores every header (with a decoy copy of every record)
             for pos in ('prefix', 'suffix'):
                 src = d / f'td_{pos}.fasta'
@@ -590,4 +1090,65 @@ class NativeBookkeeping(NativeCheck):
         return str(inp)
 
 
-NATIVE = [NativeBookkeeping()]
+class NativeWildcardMap(NativeCheck):
+    name = 'wildcard_map_oracle'
+    props = ('C18',)
+    functions = (f'{SPL}:PeptidePoolSplitter.create_wildcard_map',)
+    bounded_for = ('the wildcard map against the documented meaning of --order-source: "X" matches exactly X; "X-*" every source set that '
+                   'contains X, with or without other sources; "X-+" every set that contains X and at least one other source; the first '
+                   'matching entry of the order wins')
+    bound = 'up to 4 sources, orders of 1-5 entries (plain, combinations, -+ and -* wildcards); quick 400 random orders, thorough 6000'
+    quick_budget_s = 30
+    thorough_budget_s = 120
+
+    def cases(self, rng, tier):
+        import itertools
+        for _ in range(400 if tier != 'thorough' else 6000):
+            srcs = rng.sample(['A', 'B', 'C', 'D'], rng.randint(2, 4))
+            pool = []
+            for r in (1, 2):
+                for c_ in itertools.combinations(srcs, r):
+                    pool += [frozenset(c_), frozenset(c_) | {'*'}, frozenset(c_) | {'+'}]
+            pool.append(frozenset({'*'}))
+            order = rng.sample(pool, rng.randint(1, min(5, len(pool))))
+            yield dict(sources=sorted(srcs), order=[sorted(x) for x in order])
+
+    def check(self, inp):
+        import itertools
+        from moPepGen.aa.PeptidePoolSplitter import PeptidePoolSplitter
+        order = {}
+        for i, ent in enumerate(inp['order']):
+            key = ent[0] if len(ent) == 1 else frozenset(ent)
+            order[key] = i
+        sp = PeptidePoolSplitter(order=dict(order), sources=set(inp['sources']))
+        got = sp.create_wildcard_map()
+        want = {}
+        ents = [frozenset(x) for x in inp['order']]
+        for r in range(0, len(inp['sources']) + 1):
+            for c_ in itertools.combinations(inp['sources'], r):
+                E = frozenset(c_)
+                for ent in ents:
+                    base = ent - {'*', '+'}
+                    if '*' in ent:
+                        hit = base <= E
+                    elif '+' in ent:
+                        hit = base < E
+                    else:
+                        hit = base == E
+                    # a wildcard entry only adds sources it does not already name; an empty set is no source set
+                    if hit and E:
+                        want[E] = ent
+                        break
+        got = {k: frozenset(v) for k, v in got.items() if k}
+        if got != want:
+            diff = [(sorted(k), sorted(got.get(k, [])) or None, sorted(want.get(k, [])) or None) for k in set(got) | set(want) if got.get(k) != want.get(k)]
+            k, g, w = sorted(diff, key=str)[0]
+            return dict(call=f'create_wildcard_map(order={inp["order"]}, sources={inp["sources"]})[{k}]', observed=g, expected=w,
+                        signature='wildcard-entry-misses-a-source-set' if g is None else 'wildcard-map-wrong-entry')
+        return None
+
+    def nontrivial(self, inp):
+        return 'wild' if any('*' in x or '+' in x for x in inp['order']) else 'plain'
+
+
+NATIVE = [NativeBookkeeping(), NativeWildcardMap()]
